@@ -99,7 +99,7 @@ AgreeRawOk(e) == ~e.panic /\ ~e.check /\ ~e.compile /\ ~e.run
 (*       `after` if the link was replaced by something else), "mixedutf8" (name mixing 1- to 4-byte characters),                     *)
 (*       "absent-pipegone" (stdout is a pipe whose reader left after the first message)                                              *)
 RegularDest == {"absent", "file", "longer", "nonutf8", "longutf8", "absent-outfull", "file-outfull", "absent-msgfail", "file-msgfail",
-                "symlink", "mixedutf8", "absent-pipegone", "hardlink"}
+                "symlink", "mixedutf8", "absent-pipegone", "absent-ptygone", "hardlink"}
 Unwritable  == {"devfull", "nodir", "absent-fsize", "file-fsize", "symlink-fsize", "hardlink-fsize"}
 AtomicOk(e) ==
   LET ok == Accepts(e.ast, e.stack) IN
